@@ -15,7 +15,7 @@ pub static DEF: PropDef = PropDef {
     id: "C13",
     level: "exploration",
     engine: "meta-cas",
-    rule: "one run = 2..4 real ObjectStoreMetadataClients issuing 3..7 creations/updates each on 1..2 shard objects, expected generation taken from the node's last (possibly stale) read or deliberately wrong; every store request is a seeded scheduling point, 2/3 of runs add injected request failures/delays; distinct = distinct (node, request kind, object class, fault) grant sequence; non-trivial = completed AND (interleaved OR a fault fired)",
+    rule: "four runs in five: 2..4 real ObjectStoreMetadataClients issuing 3..7 creations/updates each on 1..2 shard objects (one run in five: the same calls by 2..4 nodes on one shared in-memory LocalMetadataClient, interleaved at call granularity, every outcome and the stored state after it compared with a sequential model), expected generation taken from the node's last (possibly stale) read or deliberately wrong; every store request is a seeded scheduling point, 2/3 of runs add injected request failures/delays; distinct = distinct (node, request kind, object class, fault) grant sequence; non-trivial = completed AND (interleaved OR a fault fired)",
     quick_runs: 15000,
     thorough_runs: 150_000,
     run_cap_ms: 20_000,
@@ -54,8 +54,75 @@ fn mk_meta(shard: &str, tag: i64, state_k: u32) -> ShardMetadata {
     }
 }
 
+/// The in-memory backend (one shared client, calls of several nodes interleaved at call granularity): every call's
+/// outcome and the stored state after it must be what a one-line sequential model says.
+async fn local_variant() {
+    use cardinalsin::metadata::LocalMetadataClient;
+    let client = Arc::new(LocalMetadataClient::new());
+    let nodes = sim::w_range(2, 4);
+    let nshards = sim::w_range(1, 2);
+    sim::log(format!("CONFIG backend=in-memory nodes={nodes} shards={nshards}"));
+    // model: shard -> (generation, tag)
+    let model: Arc<Mutex<std::collections::BTreeMap<String, (u64, i64)>>> = Arc::new(Mutex::new(Default::default()));
+    let mut hs = Vec::new();
+    for n in 0..nodes {
+        let k = sim::w_range(3, 7);
+        let ops: Vec<(u32, u32, u32, i64)> = (0..k).map(|j| (sim::w(nshards), sim::w(4), sim::w(3), (n as i64) * 1000 + j as i64 + 1)).collect();
+        let client = client.clone();
+        let model = model.clone();
+        hs.push(tokio::spawn(async move {
+            let mut last_seen: [u64; 2] = [0, 0];
+            for (sh, mode, state_k, tag) in ops {
+                sim::yield_point(n, "before shard call").await;
+                let shard = format!("shard-{sh}");
+                let expected = match mode {
+                    1 => client.get_shard_metadata(&shard).await.ok().flatten().map(|m| m.generation).unwrap_or(0),
+                    2 => 0,
+                    3 => last_seen[sh as usize] + 1,
+                    _ => last_seen[sh as usize],
+                };
+                let before = model.lock().unwrap().get(&shard).cloned();
+                let should_succeed = match before {
+                    Some((g, _)) => g == expected,
+                    None => expected == 0,
+                };
+                let r = client.update_shard_metadata(&shard, &mk_meta(&shard, tag, state_k), expected).await;
+                sim::log(format!("n{n} update {shard} expected={expected} tag={tag} -> {:?} (model before: {:?})", r.as_ref().map_err(|e| e.to_string()), before));
+                match (&r, should_succeed) {
+                    (Ok(()), true) => {
+                        model.lock().unwrap().insert(shard.clone(), (expected + 1, tag));
+                        last_seen[sh as usize] = expected + 1;
+                    }
+                    (Err(_), false) => sim::probe("stale-rejected"),
+                    (Ok(()), false) => {
+                        sim::violation("C13/stale-writer-overwrote", format!("in-memory backend: update of {shard} with expected generation {expected} succeeded although the stored state was {:?}", before));
+                        model.lock().unwrap().insert(shard.clone(), (expected + 1, tag));
+                    }
+                    (Err(e), true) => sim::violation("C13/current-writer-rejected", format!("in-memory backend: update of {shard} based on the current generation {expected} was rejected: {e}")),
+                }
+                // the stored state is the model's
+                let stored = client.get_shard_metadata(&shard).await.ok().flatten().map(|m| (m.generation, m.min_time));
+                let want = model.lock().unwrap().get(&shard).cloned();
+                if stored != want {
+                    sim::violation("C13/generation-not-plus-one", format!("in-memory backend: {shard} holds (generation, tag) {:?} after the call, the history says {:?}", stored, want));
+                }
+            }
+        }));
+    }
+    for h in hs {
+        let _ = h.await;
+    }
+    sim::set_completed();
+    sim::set_nontrivial();
+}
+
 fn scen(_spec: RunSpec) -> ScenFut {
     Box::pin(async move {
+        // one run in five exercises the in-memory backend
+        if sim::w(5) == 4 {
+            local_variant().await;
+            return;
+        }
         let inner = Arc::new(InMemory::new());
         let nodes = sim::w_range(2, 4);
         let nshards = sim::w_range(1, 2);
